@@ -19,6 +19,7 @@ def norm_handler(h):
     h.setdefault("raw", False)
     h.setdefault("silent", False)
     h.setdefault("ptype", "")
+    h.setdefault("wrap", False)
     return h
 
 
